@@ -23,9 +23,10 @@ Inductive prim (c : config) : mstate -> mstate -> Prop :=
 | p_list ca t r m : prim c m (set_list ca t r m)
 | p_outs o m : prim c m (set_outs o m)
 | p_choices ch m : prim c m (set_choices ch m)
-| p_hs h m : prim c m (set_hs h m)
+| p_hs m : prim c m (set_hs false m)
 | p_read rp it rest m : m_in m = it :: rest -> prim c m (emit (EIn rp (m_bits m) it) (set_in rest m))
-| p_switch m : prim c m (emit (ESwitch (tls_name c m)) (switch_layer m)).
+| p_switch m : prim c m (emit (ESwitch (tls_name c m)) (switch_layer m))
+| p_adv a m : prim c m (set_adv a m).
 
 Inductive evolves (c : config) : mstate -> mstate -> Prop :=
 | ev_refl m : evolves c m m
@@ -75,7 +76,8 @@ Proof.
   induction cs as [|ch cs IH]; intros m ca tot lr m' r H; cbn in H.
   - inversion H; subst. apply ev_refl.
   - destruct ch as [sp lo req perr|].
-    + destruct (get_feature (sp, lo) fs) as [f|].
+    + apply ev_then with (m2 := add_adv sp m); [apply p_adv|].
+      destruct (get_feature (sp, lo) fs) as [f|].
       * destruct perr.
         -- inversion H; subst. apply ev1, p_emit. reflexivity.
         -- eapply ev_then; [|eapply IH; exact H]. apply p_emit. reflexivity.
@@ -244,12 +246,12 @@ Proof.
   - exact Hm.
   - destruct (has (m_bits m) st_Ready); [exact Hm|].
     destruct (tee && negb istee).
-    + apply IH. eapply Hp; [apply p_negd|exact Hm].
+    + apply IH. eapply Hp; [apply p_adv|]. eapply Hp; [apply p_negd|exact Hm].
     + destruct (negotiator_body c m (ns_of data)) as [m1 r] eqn:E.
       pose proof (evolves_inv c I Hp _ _ (negotiator_body_ev _ _ _ _ _ E) Hm) as H1.
       destruct r as [[[mask restart] ns1]|e|]; cbn; try exact H1.
       apply IH. eapply Hp; [apply p_bits|].
-      destruct restart; [eapply Hp; [apply p_negd|exact H1]|exact H1].
+      destruct restart; [eapply Hp; [apply p_adv|]; eapply Hp; [apply p_negd|exact H1]|exact H1].
 Qed.
 
 (* ------------------------------------------------------------------ list lemmas on traces *)
@@ -315,7 +317,7 @@ Definition acct (clear tls : list pitem) (m : mstate) : Prop :=
 
 Lemma acct_prim c clear tls m m' : prim c m m' -> acct clear tls m -> acct clear tls m'.
 Proof.
-  intros Hp. destruct Hp as [e m Hq| | | | | | |rp it rest m Hin|m]; try (intro H; exact H).
+  intros Hp. destruct Hp as [e m Hq| | | | | | |rp it rest m Hin|m|]; try (intro H; exact H).
   - (* quiet event *)
     destruct (quiet_facts e Hq) as (Hs & Hi & _).
     unfold acct; cbn [m_tr emit m_in m_tlsin].
@@ -373,7 +375,7 @@ Definition fvinv (c : config) (fv : option bytes) (m : mstate) : Prop :=
 
 Lemma fvinv_prim c fv m m' : prim c m m' -> fvinv c fv m -> fvinv c fv m'.
 Proof.
-  intros Hp. destruct Hp as [e m Hq| | | | | | |rp it rest m Hin|m]; try (intro H; exact H).
+  intros Hp. destruct Hp as [e m Hq| | | | | | |rp it rest m Hin|m|]; try (intro H; exact H).
   - destruct (quiet_facts e Hq) as (_ & _ & Hn).
     unfold fvinv; cbn [m_tr emit m_fv]. rewrite server_names_app, Hn, app_nil_r. auto.
   - unfold fvinv; cbn [m_tr emit set_in m_fv]. rewrite server_names_app. cbn. rewrite app_nil_r. auto.
@@ -406,7 +408,7 @@ Definition remaining (m : mstate) : nat := length (m_in m) + length (m_tlsin m).
 
 Lemma remaining_prim c m m' : prim c m m' -> remaining m' <= remaining m.
 Proof.
-  intros Hp. destruct Hp as [e m Hq| | | | | | |rp it rest m Hin|m]; unfold remaining; cbn; try lia.
+  intros Hp. destruct Hp as [e m Hq| | | | | | |rp it rest m Hin|m|]; unfold remaining; cbn; try lia.
   rewrite Hin. cbn. lia.
 Qed.
 
@@ -451,13 +453,13 @@ Proof.
   destruct (has (m_bits m) st_Ready); [cbn; discriminate|].
   destruct (tee && negb istee) eqn:Et.
   - apply IH. unfold measure in *. rewrite Et in Hlt. cbn [negb]. rewrite Bool.andb_false_r.
-    unfold remaining in *. cbn [set_negd m_in m_tlsin]. lia.
+    unfold remaining in *. cbn [reset_stream set_adv set_negd m_in m_tlsin]. lia.
   - destruct (negotiator_body c m (ns_of data)) as [m1 r] eqn:E.
     destruct r as [[[mask restart] ns1]|e|]; cbn; try discriminate.
     apply IH. pose proof (negotiator_body_consumes _ _ _ _ _ E) as Hc.
     unfold measure in *. rewrite Et in Hlt.
-    assert (remaining (set_bits (N.lor (m_bits (if restart then set_negd [] m1 else m1)) mask)
-                                (if restart then set_negd [] m1 else m1)) = remaining m1) as Hr
+    assert (remaining (set_bits (N.lor (m_bits (if restart then reset_stream m1 else m1)) mask)
+                                (if restart then reset_stream m1 else m1)) = remaining m1) as Hr
       by (destruct restart; reflexivity).
     rewrite Hr. destruct (tee && negb (if restart then false else istee)); lia.
 Qed.
@@ -485,18 +487,18 @@ Qed.
 
 (* ------------------------------------------------------------------ the tee changes nothing *)
 
-Lemma set_negd_same m : m_negd m = [] -> set_negd [] m = m.
-Proof. destruct m; cbn. intro H; subst. reflexivity. Qed.
+Lemma reset_same m : m_negd m = [] /\ m_adv m = [] -> reset_stream m = m.
+Proof. destruct m; cbn. intros (H1 & H2); subst. reflexivity. Qed.
 
 Lemma session_loop_S k tee c m data istee :
   session_loop (S k) tee c m data istee =
   if has (m_bits m) st_Ready then mkR ROk (m_bits m) m
   else if tee && negb istee then
-    session_loop k tee c (set_negd [] m) (Some (ns_of data)) true
+    session_loop k tee c (reset_stream m) (Some (ns_of data)) true
   else
     match negotiator_body c m (ns_of data) with
     | (m1, Good (mask, restart, ns1)) =>
-        let m2 := if restart then set_negd [] m1 else m1 in
+        let m2 := if restart then reset_stream m1 else m1 in
         session_loop k tee c (set_bits (N.lor (m_bits m2) mask) m2) (Some ns1) (if restart then false else istee)
     | (m1, Bad e) => mkR (RErr e) (m_bits m1) m1
     | (m1, Stuck) => mkR RStuck (m_bits m1) m1
@@ -505,7 +507,7 @@ Proof. reflexivity. Qed.
 
 Lemma tee_sim c : forall k m data data' istee i2,
   ns_of data = ns_of data' ->
-  (istee = false -> m_negd m = []) ->
+  (istee = false -> m_negd m = [] /\ m_adv m = []) ->
   r_class (session_loop k false c m data' i2) <> RFuel ->
   session_loop (2 * k) true c m data istee = session_loop k false c m data' i2.
 Proof.
@@ -518,19 +520,19 @@ Proof.
   - (* already a teeConn *)
     rewrite Hns. destruct (negotiator_body c m (ns_of data')) as [m1 r] eqn:E.
     destruct r as [[[mask restart] ns1]|e|]; try reflexivity.
-    set (m2 := set_bits (N.lor (m_bits (if restart then set_negd [] m1 else m1)) mask)
-                        (if restart then set_negd [] m1 else m1)) in *.
+    set (m2 := set_bits (N.lor (m_bits (if restart then reset_stream m1 else m1)) mask)
+                        (if restart then reset_stream m1 else m1)) in *.
     assert (session_loop (2 * k) true c m2 (Some ns1) (if restart then false else true)
             = session_loop k false c m2 (Some ns1) (if restart then false else i2)) as Heq.
-    { apply IH; [reflexivity| |exact Hnf]. destruct restart; [intros _; reflexivity|discriminate]. }
+    { apply IH; [reflexivity| |exact Hnf]. destruct restart; [intros _; split; reflexivity|discriminate]. }
     replace (S (2 * k)) with (2 * k + 1) by lia.
     rewrite session_loop_mono; [exact Heq|]. rewrite Heq. exact Hnf.
   - (* the wrapping call, then the same call as without tee *)
-    rewrite (set_negd_same m (Hneg eq_refl)).
+    rewrite (reset_same m (Hneg eq_refl)).
     rewrite (session_loop_S (2 * k)). rewrite Er. cbn [andb negb ns_of].
     rewrite Hns. destruct (negotiator_body c m (ns_of data')) as [m1 r] eqn:E.
     destruct r as [[[mask restart] ns1]|e|]; try reflexivity.
-    apply IH; [reflexivity| |exact Hnf]. destruct restart; [intros _; reflexivity|discriminate].
+    apply IH; [reflexivity| |exact Hnf]. destruct restart; [intros _; split; reflexivity|discriminate].
 Qed.
 
 Lemma run_tee_invariant c fv bits clear tls outs choices :
@@ -541,5 +543,5 @@ Proof.
   unfold run in *. set (F := fuel_for clear tls) in *. set (m0 := init_state fv bits clear tls outs choices) in *.
   rewrite <- (session_loop_mono c F true m0 None false F Ht).
   replace (F + F) with (2 * F) by lia.
-  apply tee_sim; [reflexivity|intros _; reflexivity|exact Hf].
+  apply tee_sim; [reflexivity|intros _; split; reflexivity|exact Hf].
 Qed.
